@@ -13,6 +13,9 @@ from harness.drivers.c03 import cap_multipliers
 RES = "ACDEFGHIKLMNPQRSTVWY"
 
 
+
+RULE_EXTRA = ("annotation input: second call on the same object and the argument's own serialisation afterwards; result type.")
+
 def gen(rnd):
     n = rnd.randint(1, 15)
     A = anngen.annotation(rnd, n, n, alphabet=RES, kinds="massy2", density=0.3,
